@@ -272,6 +272,10 @@ def mapimg_classify(line, impl, mobs, extra):
     elif impl.split()[0] == "err" and mobs.startswith("ok"):
         info["prop_fail"] = "valid-mapping-rejected"
         info["why"] = "a valid pair of id permutations was rejected"
+    elif flags.get("COSTS") == "0":
+        # the property's own clause, evaluated on the implementation: cost'(new r, new l) = cost(r, l) for all id pairs
+        info["prop_fail"] = "mapped-costs-differ"
+        info["why"] = "after map_connection_ids_from_iter the connection cost between mapped ids differs from the original cost between the original ids"
     elif impl != mobs:
         info["corr_fail"] = "tables of the mapped dictionary differ from the abstract mapper model: " + mobs
     return info
